@@ -463,6 +463,82 @@ def run_big(ctx, d, k0):
     ctx.extra["big_transitions_observed"] = seen
 
 
+def run_many_bins(ctx, d, lengths=(600000, 400000, 250000), tag="q"):
+    """a path only taken beyond a size threshold: an enum-encoded collection with more than 1,000,000 bins (bin size 1),
+    a chain of two renamings touching the middle and the first chromosome; the complete chrom column is compared
+    vectorised (stored codes and decoded labels), bins().fetch by each new name by row count and first/last rows,
+    pixels(join=True) labels, extents - on the same object and after reopening"""
+    import time
+    import cooler
+    t0 = time.time()
+    names = ["chrA", "chrB", "chrC"][:len(lengths)]
+    codes = np.repeat(np.arange(len(lengths), dtype=np.int32), lengths)
+    starts = np.concatenate([np.arange(L, dtype=np.int32) for L in lengths])
+    nb = int(codes.size)
+    bins = pd.DataFrame({"chrom": pd.Categorical.from_codes(codes, names), "start": starts, "end": starts + 1})
+    offs = np.concatenate([[0], np.cumsum(lengths)])
+    last = int(offs[len(lengths) - 1])
+    cand = [(0, 1), (5, int(offs[1]) + 1), (int(offs[1]), int(offs[1]) + 1), (int(offs[1]), last), (last, nb - 1), (nb - 2, nb - 1)]
+    pix = sorted({(min(a, b, nb - 1), min(max(a, b), nb - 1)): 2 + i for i, (a, b) in enumerate(cand)}.items())
+    fn = os.path.join(d, f"manybins_{tag}.cool")
+    cooler.create_cooler(fn, bins, pd.DataFrame({"bin1_id": [k[0] for k, _ in pix], "bin2_id": [k[1] for k, _ in pix],
+                                                 "count": [v for _, v in pix]}))
+    maps = [{names[1]: "middle_renamed"}, {"middle_renamed": "m2", names[0]: "first_too"}]
+    cur = list(names)
+    clr = cooler.Cooler(fn)
+    case = {"many_bins": list(lengths), "maps": maps}
+    bad = []
+    for m in maps:
+        o, _ = G.guarded(cooler.rename_chroms, clr, dict(m), limit=120)
+        if o != "Ok":
+            bad.append({"what": "rename_chroms raised", "outcome": o})
+            break
+        cur = apply_map(cur, m)
+
+    def check(c, tagc):
+        with h5py.File(fn, "r") as h:
+            ds = h["bins/chrom"]
+            raw = ds[:]
+            en = h5py.check_enum_dtype(ds.dtype)
+            hdr = [k for k, _ in sorted(en.items(), key=lambda kv: kv[1])] if en else None
+            stored = [x.decode() for x in h["chroms/name"][:]]
+        if not np.array_equal(raw, codes):
+            w = np.nonzero(raw != codes)[0]
+            bad.append({"what": f"stored bin chromosome codes differ ({tagc})", "n_wrong": int(w.size), "first_wrong_bin": int(w[0]),
+                        "got": int(raw[w[0]]), "expected": int(codes[w[0]])})
+        if hdr is not None and hdr != cur:
+            bad.append({"what": f"enum header ({tagc})", "got": hdr, "expected": cur})
+        if stored != cur or [str(x) for x in c.chromnames] != cur:
+            bad.append({"what": f"chromosome names ({tagc})", "got": [stored, [str(x) for x in c.chromnames]], "expected": cur})
+        col = c.bins()["chrom"][:]
+        lab_codes = col.cat.codes.values if hasattr(col, "cat") else None
+        if lab_codes is None or [str(x) for x in col.cat.categories] != cur or not np.array_equal(lab_codes, codes):
+            bad.append({"what": f"labels of the complete bin table ({tagc})",
+                        "n_wrong": int((lab_codes != codes).sum()) if lab_codes is not None else "not categorical"})
+        for i, nm in enumerate(cur):
+            lo, hi = int(offs[i]), int(offs[i + 1])
+            ext = G.guarded(c.extent, nm)
+            if ext[0] != "Ok" or [int(x) for x in ext[1]] != [lo, hi]:
+                bad.append({"what": f"extent by new name ({tagc})", "name": nm, "got": str(ext)[:80]})
+            o, t = G.guarded(lambda: c.bins().fetch(nm))
+            ok = o == "Ok" and len(t) == hi - lo and [str(t["chrom"].iloc[0]), int(t["start"].iloc[0])] == [nm, 0] and \
+                [str(t["chrom"].iloc[-1]), int(t["end"].iloc[-1])] == [nm, hi - lo] and (t["chrom"].astype(str) == nm).all()
+            if not ok:
+                bad.append({"what": f"bins().fetch by new name ({tagc})", "name": nm, "got": o if o != "Ok" else [len(t), str(t["chrom"].iloc[0])]})
+        o, j = G.guarded(lambda: c.pixels(join=True)[:])
+        exp_join = [[cur[int(codes[k[0]])], cur[int(codes[k[1]])]] for k, _ in pix]
+        if o != "Ok" or [[str(a), str(b_)] for a, b_ in zip(j["chrom1"], j["chrom2"])] != exp_join:
+            bad.append({"what": f"chromosome labels of pixels(join=True) ({tagc})", "expected": exp_join})
+    if not bad:
+        check(clr, "same object")
+        check(cooler.Cooler(fn), "reopened")
+    os.remove(fn)
+    ctx.case(case, nontrivial=True, kind="many-bins")
+    for b in bad:
+        ctx.fail(case, b, None)
+    ctx.extra.setdefault("many_bins_seconds", []).append(round(time.time() - t0, 1))
+
+
 def history_pass(ctx, d, rng, tag):
     """state carried between calls in ONE process: several collections as groups of ONE file renamed alternately,
     through long-lived and fresh Cooler objects; the same path overwritten with other chromosome names / another
@@ -634,6 +710,12 @@ def run(ctx):
         ctx.compare("raw tree after renaming", case, r["dump"], G.canon_dump(G.model_dump(dump)))
         ctx.compare("same object vs reopened", case, r["same"], r["reopened"])
     run_big(ctx, d, len(cases))
+    run_many_bins(ctx, d)
+    run_many_bins(ctx, d, (999999, 2), "t2")                       # one bin beyond 1,000,000
+    run_many_bins(ctx, d, (500000, 500000), "t3")                  # exactly 1,000,000
+    if thorough:
+        run_many_bins(ctx, d, (1000000, 1, 999999), "t1")          # block edges at chromosome boundaries, two full blocks
+        run_many_bins(ctx, d, (1500000, 700000, 900000), "t4")     # four blocks
     for t in range(8 if thorough else 3):
         history_pass(ctx, d, rng, t)
     if thorough:
@@ -665,6 +747,14 @@ def big_enum_overflow(ctx):
 def replay(ctx, case):
     import warnings
     warnings.filterwarnings("ignore")
+    if "many_bins" in case:
+        d = str(ctx.tmp / "replay")
+        os.makedirs(d, exist_ok=True)
+        n0 = len(ctx.failures)
+        run_many_bins(ctx, d, tuple(case["many_bins"]), "r")
+        for f in ctx.failures[n0:]:
+            print("  ", str(f[1])[:300])
+        return len(ctx.failures) == n0
     if "history" in case:
         import random
         d = str(ctx.tmp / "replay")
